@@ -720,12 +720,28 @@ def check_mc_case(ctx, case):
   ctx.count(f"mc:{'failures' if fgps else 'plain'}:{'pending' if len(pend) else 'no-pending'}" + (":candidate=pending" if co else ""))
   if numpy.any(dev > lim):
     i = int(numpy.argmax(dev / lim))
+    sig_ = "qEI-with-failures-vs-exact" if fgps else "qEI-vs-exact"
+    if fgps and len(pend):
+      # F18 (fixed; the signature stays so that a regression is named): when no Monte-Carlo draw is both improving and successful the estimator falls back to "improvement x success
+      # probability", but weights EVERY row - the pending points' improvements too - by the CANDIDATE's probability.
+      # The signature is attached only when the reported value is that fallback value.
+      try:
+        plain = ExpectedParallelImprovement(gp, 1, points_being_sampled=pend, num_mc_iterations=q.num_mc_iterations)
+        plain.best_value = q.best_value
+        st_ = numpy.random.get_state()
+        pl = numpy.mean([numpy.asarray(plain.evaluate_at_point_list(pts), dtype=float) for _ in range(4)], axis=0)
+        numpy.random.set_state(st_)
+        fb = pl[i] * float(numpy.asarray(fm.compute_probability_of_success(pts[i:i + 1]), dtype=float)[0])
+        if abs(est[i] - fb) <= 0.05 * abs(fb) + 5 * tot[i]:
+          sig_ = "epi-failures-fallback-weights-pending-by-candidate-probability"
+      except Exception:  # noqa
+        pass
     what = ("C05 [statistical] Monte-Carlo parallel improvement " + ("with failure models " if fgps else "")
             + ("with pending points " if len(pend) else "") + "is not within 4 standard errors of the exact value")
     ctx.violation(what, {"case": case, "point": pts[i].tolist(), "estimate": float(est[i]), "standard_error": float(tot[i]),
                          "exact": float(exact[i]), "exact_by": label, "repeats": R,
                          "deviation_in_standard_errors": float(dev[i] / max(tot[i], 1e-300))},
-                  signature="qEI-with-failures-vs-exact" if fgps else "qEI-vs-exact")
+                  signature=sig_)
   return {"nontrivial": bool(numpy.any(exact > 1e-30))}
 
 
@@ -817,10 +833,14 @@ def check_case(ctx, case):
   ctx.case(key=key, nontrivial=info["nontrivial"], sample=sample)
 
 
+F18_CASE = {'kind': 'mc', 'gp': {'kernel': 'c2', 'hparams': [9.040297488611142, 1.2319145590417884, 0.41860980145411214], 'x': [[0.7927968524580162, -0.7690376518198607], [0.7927968524580162, -0.7690376518198607], [-0.8125519783578796, 0.8828994873786384], [1.9060348732306869, 0.8322753165480954], [0.20652934216573016, -1.0605755437021873], [0.9625075825735463, 0.15685882488150638], [-1.5459183646900643, 0.3545013708974287], [-0.22916986132291584, -1.7592503582401071], [-1.5446709053664822, -0.3950425167293714], [-1.4035180921419421, 1.068328390836395], [1.403182858029142, 1.3505257010763945], [-0.9535848912756144, 0.6546389365688396]], 'y': [31.171126603792587, 33.48663503211162, 40.078379778111675, 125.70035434767568, 13.501696148788337, 52.200149474339014, 24.882081438565837, 15.066501222163318, 10.228252343170688, 50.59749994321529, 121.76703498521626, 29.736565735594276], 'noise': [0.09040297488611142, 0.09040297488611142, 0.09040297488611142, 0.009040297488611142, 1.8080594977222284, 0.009040297488611142, 0.009040297488611142, 0.009040297488611142, 0.009040297488611142, 0.009040297488611142, 1.8080594977222284, 0.09040297488611142], 'mean': 'const'}, 'points': [[0.7900072404080092, -0.8112174495180562], [1.159098679008987, -1.5308507690256072], [-1.5219391157777475, 1.656629753420304], [0.3245491782217549, -1.8086372258734897]], 'pending': [[-1.614136093344821, -0.406741290047572]], 'failure_values': [[-0.32322581837908326, -2.2908234268530356, -0.40016207837483964, -0.6445993806097593, -1.2847626925920357, -0.15719962128766843, 0.6135560202998314, 0.8332595814459817, -0.4744357083426169, 0.4390884934479712, -1.1040380669984455, -0.13605727454209804], [-1.059633582627598, -1.0186251095177532, 1.2843656966506838, -0.6285420619309519, -0.6239808594348566, 2.5260727916928967, 2.3803138632877454, 0.12446217554139037, 0.9206151658741408, -1.2677834683067608, 1.9546622495962118, -0.6732813437629983]], 'failure_thresholds': [0.4246373098528784, -0.1482862275615145], 'np_seed': 1265850676}
+
+
 def _corpus():
   g = {"kernel": "se", "hparams": [1.0, 0.5], "x": [[0.0], [1.0], [2.0]], "y": [1.0, -1.0, -1.0],
        "noise": [0.01, 0.01, 0.01], "mean": "zero"}
   return [
+    F18_CASE,   # F18 (fixed in /repo): pending point that would improve but almost surely fails
     # tie for the best value (first wins), a product of two models, a sampled point and a far point
     {"kind": "af", "gp": g, "points": [[0.5], [1.0], [300.0], [1.5]], "batches": [None, 1, 3, 7], "multitask": False,
      "pfs": [{"type": "logistic", "y": None, "threshold": 0.0}, {"type": "cdf", "y": [0.0, 1.0, 2.0], "threshold": 1.0}],
